@@ -284,6 +284,15 @@ def body(c, ctx):
         if n0.shape != n1.shape or not np.allclose(n0, n1, rtol=0, atol=1e-9):
             ctx.fail('basis_normals_sides', f'normals of the side-0 and side-1 bases differ by '
                      f'{np.abs(n0 - n1).max() if n0.shape == n1.shape else "shape"} at the same physical points', **sig)
+        # a basis on an ORIENTED facet set (mixed orientation) and its counterpart with another element: the same normals
+        from skfem import FacetBasis
+        from skfem.generic_utils import OrientedBoundary
+        ob = OrientedBoundary(inner_f.astype(np.int32), (np.arange(len(inner_f)) % 2).astype(np.int32))
+        fo = FacetBasis(m, m.elem(), facets=ob, quadrature=(S0, W))
+        fw = fo.with_element(m.elem())
+        if not np.array_equal(np.asarray(fo.normals.value), np.asarray(fw.normals.value)):
+            ctx.fail('basis_normals_derived', 'with_element() of a basis on an oriented facet set delivers other normals '
+                     f'(max difference {np.abs(np.asarray(fo.normals.value) - np.asarray(fw.normals.value)).max():.2e})', **sig)
         dGi = np.array([fd.d_dX(lambda Y: np.asarray(mapping.G(Y, find=ib1.find)), S0, a, h) for a in range(dim - 1)])
         for a in range(dim - 1):
             dots = (n1 * dGi[a]).sum(0) / hcell
